@@ -1,0 +1,35 @@
+use super::World;
+use crate::{
+    registry,
+    verif::Dump,
+};
+
+impl<Registry, Resources> World<Registry, Resources>
+where
+    Registry: registry::Registry,
+{
+    /// Read-only snapshot of the world's bookkeeping, for external verification tooling.
+    #[must_use]
+    pub fn verif_dump(&self) -> Dump {
+        let (archetypes, type_id_lookup, foreign_identifier_lookup) = self.archetypes.verif_dump();
+        Dump {
+            len: self.len,
+            slots: self
+                .entity_allocator
+                .slots
+                .iter()
+                .map(|slot| {
+                    (
+                        slot.generation,
+                        slot.location
+                            .map(|location| (location.identifier.verif_addr(), location.index)),
+                    )
+                })
+                .collect(),
+            free: self.entity_allocator.free.iter().copied().collect(),
+            archetypes,
+            type_id_lookup,
+            foreign_identifier_lookup,
+        }
+    }
+}
